@@ -26,6 +26,10 @@ const PYC_MAGIC: &[u8] = &[0x0D, 0x0A];
 const PYLONG_MARSHAL_SHIFT: i32 = 15;
 const FLAG_REF_BIT: u8 = 0x1 << 7;
 
+// cpython/Python/marshal.c uses a MAX_MARSHAL_STACK_DEPTH of 2000 (1000 in debug
+// builds on Windows). We use the lower value so that unoptimized builds are safe too.
+const MAX_MARSHAL_STACK_DEPTH: usize = 1000;
+
 const TRACE: bool = false;
 
 pub fn pyc_python_version(buf: &[u8; 4]) -> Result<((u32, u32), usize)> {
@@ -963,6 +967,7 @@ pub struct PycParser {
     read_offset: usize, // index into .data
 
     flag_refs: Vec<Option<Rc<Object>>>, // objects that have been flagged to be referenced
+    depth: usize,       // current nesting depth in read_object
 }
 
 impl PycParser {
@@ -992,6 +997,7 @@ impl PycParser {
             data,
             read_offset: header_length,
             flag_refs: Vec::new(),
+            depth: 0,
         };
 
         let mtime = pyc.py_content_mtime();
@@ -1059,6 +1065,21 @@ impl PycParser {
     }
 
     fn read_object(&mut self) -> Result<Rc<Object>> {
+        // Deeply nested objects would exhaust the stack. CPython refuses them too.
+        if self.depth >= MAX_MARSHAL_STACK_DEPTH {
+            return Err(super::Error::Other(
+                format!("{}:{}/0x{:x}: objects are nested too deeply",
+                        self.input_path.display(), self.read_offset, self.read_offset)
+            ).into());
+        }
+
+        self.depth += 1;
+        let res = self.read_object_inner();
+        self.depth -= 1;
+        res
+    }
+
+    fn read_object_inner(&mut self) -> Result<Rc<Object>> {
         let flag_num: Option<usize>;
         let (offset, mut b) = self._read_byte()?;
 
